@@ -56,6 +56,12 @@ func evalPrefix(prefix []byte, full int, fc uint8, allow bool, res *ev.Result, l
 	if err != nil || n != full {
 		res.Violate(ev.Violation{Check: "prefix", Kind: "wrong-length-or-error", Attrs: attrs,
 			Msg: fmt.Sprintf("prefix %s (%d bytes of a %d byte fc%d request encoded by the library): got (%d, %v), want (%d, nil)", ev.Hex(prefix), len(prefix), full, fc, n, err, full), Case: mk()})
+		return
+	}
+	if len(prefix) == full {
+		// the whole encoded frame is there and was accepted with its length: the dispatcher must parse it or refuse it
+		// with an error that encodes to a valid exception reply
+		dispatch(prefix[:n:n], prefix, allow, map[string]any{"allow": allow, "fc_class": fcClass(fc), "len_class": lenClass(full - 6), "proto0": true}, res, mk)
 	}
 }
 
